@@ -109,6 +109,10 @@ func main() {
 				switch s.Scen.Src {
 				case "file":
 					os.WriteFile(S, srcBytes, 0o644)
+				case "linkToFile":
+					R := filepath.Join(d1, "real.bin")
+					os.WriteFile(R, srcBytes, 0o644)
+					os.Symlink(R, S)
 				case "dir":
 					os.Mkdir(S, 0o755)
 					os.WriteFile(filepath.Join(S, "inner"), []byte("x"), 0o644)
@@ -159,6 +163,11 @@ func main() {
 				case "otherFsSymlinkToSrc":
 					D = filepath.Join(d2, "dst.lnk")
 					os.Symlink(S, D)
+				case "srcTarget":
+					D = filepath.Join(d1, "real.bin")
+				case "symlinkToSrcTarget":
+					D = filepath.Join(d1, "dst.lnk")
+					os.Symlink(filepath.Join(d1, "real.bin"), D)
 				case "danglingSymlink":
 					D = filepath.Join(d1, "dst.lnk")
 					os.Symlink(T, D)
@@ -188,7 +197,7 @@ func main() {
 					violation("panicked: %v", pan)
 				}
 				// ---- the statement itself, on the real outcome
-				if s.Scen.Src == "file" {
+				if s.Scen.Src == "file" || s.Scen.Src == "linkToFile" {
 					sb, serr := os.ReadFile(S)
 					db, derr := os.ReadFile(D)
 					srcIntact := serr == nil && bytes.Equal(sb, srcBytes)
@@ -208,12 +217,12 @@ func main() {
 				if (cerr == nil) != s.OK {
 					report("returned err=%v, the specification predicts %s", cerr, s.Result)
 				}
-				paths := map[string]string{"S": S, "D": D, "T": T}
+				paths := map[string]string{"S": S, "D": D, "T": T, "R": filepath.Join(d1, "real.bin")}
 				content := map[string][]byte{"c_src": srcBytes, "c_dst": dstBytes, "empty": {}}
 				for name, want := range s.Final {
 					p := paths[name]
-					if name == "D" && s.Scen.Dst == "same" {
-						continue // D is S
+					if name == "D" && (s.Scen.Dst == "same" || s.Scen.Dst == "srcTarget") {
+						continue // D is S / R
 					}
 					li, lerr := os.Lstat(p)
 					got := "none"
